@@ -100,6 +100,7 @@ errcode_t stub_read_inode(ext2_filsys fs, ext2_ino_t ino, struct ext2_inode *ino
 	return 0;
 }
 
+#ifndef VF_OWN_ITERATE
 /* STUB: ext2fs_block_iterate3() presents the NB mapped blocks of the directory in logical order and stops on BLOCK_ABORT, as the real iterator does for a directory without holes */
 errcode_t stub_block_iterate3(ext2_filsys fs, ext2_ino_t ino, int flags, char *block_buf,
 			      int (*func)(ext2_filsys fs, blk64_t *blocknr, e2_blkcnt_t blockcnt,
@@ -117,6 +118,8 @@ errcode_t stub_block_iterate3(ext2_filsys fs, ext2_ino_t ino, int flags, char *b
 	}
 	return 0;
 }
+
+#endif
 
 /* STUB: inline-data directories are outside: the stub is never reached (block iterator never reports EXT2_ET_INLINE_DATA_CANT_ITERATE) */
 int stub_inline_data_dir_iterate(ext2_filsys fs, ext2_ino_t ino, void *priv_data)
